@@ -93,6 +93,25 @@ func (f *fsModel) with(kind, guest string) *fsModel {
 	return n
 }
 
+// unmount models WithFSMount(nil, guest): an existing guest path keeps its place with no file system behind
+// it, an unknown one is ignored.
+func (f *fsModel) unmount(guest string) *fsModel {
+	cl := strings.TrimSuffix(strings.TrimPrefix(guest, "/"), "/")
+	if f != nil {
+		for _, p := range f.paths {
+			if strings.TrimSuffix(strings.TrimPrefix(p, "/"), "/") == cl {
+				return f.with("nil", guest)
+			}
+		}
+	}
+	n := &fsModel{}
+	if f != nil {
+		n.paths = append([]string{}, f.paths...)
+		n.kinds = append([]string{}, f.kinds...)
+	}
+	return n
+}
+
 // ---------------------------------------------------------------- nodes and ops
 
 type node struct {
@@ -225,6 +244,13 @@ func fsOps() []op {
 		g := g
 		add("WithFSMount(map,"+g+")", "fs", g, func(w *world, c wazero.FSConfig) wazero.FSConfig { return c.WithFSMount(w.mapfs, g) })
 	}
+	for _, g := range []string{"/", "/a"} {
+		g := g
+		name := "WithFSMount(nil," + g + ")"
+		ops = append(ops, op{name, func(w *world, n *node) *node {
+			return &node{fc: n.fc.WithFSMount(nil, g), model: n.model.(*fsModel).unmount(g), born: name}
+		}})
+	}
 	ops = append(ops, op{"UseInModuleConfig+Instantiate", func(w *world, n *node) *node {
 		w.guest.observe(context.Background(), wazero.NewModuleConfig().WithFSConfig(n.fc))
 		return nil
@@ -284,6 +310,8 @@ func buildGuest(moduleName string) []byte {
 	f4 := m.ImportFunc(w, "environ_get", []byte{i32, i32}, []byte{i32})
 	f5 := m.ImportFunc(w, "fd_prestat_get", []byte{i32, i32}, []byte{i32})
 	f6 := m.ImportFunc(w, "fd_prestat_dir_name", []byte{i32, i32, i32}, []byte{i32})
+	f7 := m.ImportFunc(w, "path_create_directory", []byte{i32, i32, i32}, []byte{i32})
+	f8 := m.ImportFunc(w, "path_remove_directory", []byte{i32, i32, i32}, []byte{i32})
 	m.Mem = &wb.Limits{Min: 1}
 	g := m.AddGlobal(wb.I32, true, wb.CI32(0))
 	wrap2 := func(nm string, f uint32) {
@@ -297,6 +325,9 @@ func buildGuest(moduleName string) []byte {
 	wrap2("fd_prestat_get", f5)
 	idx := m.AddFunc([]byte{i32, i32, i32}, []byte{i32}, nil, (&wb.Asm{}).LocalGet(0).LocalGet(1).LocalGet(2).Call(f6).B)
 	m.ExportFunc("fd_prestat_dir_name", idx)
+	for nm, f := range map[string]uint32{"path_create_directory": f7, "path_remove_directory": f8} {
+		m.ExportFunc(nm, m.AddFunc([]byte{i32, i32, i32}, []byte{i32}, nil, (&wb.Asm{}).LocalGet(0).LocalGet(1).LocalGet(2).Call(f).B))
+	}
 	// start functions: s1 => g = g*10+1 ; s2 => g = g*10+2
 	for k, nm := range []string{"s1", "s2"} {
 		b := (&wb.Asm{}).GlobalGet(g).I32Const(10).Op(0x6c).I32Const(int32(k + 1)).Op(0x6a).GlobalSet(g).B
@@ -314,7 +345,10 @@ type guestRT struct {
 	code      wazero.CompiledModule
 	codeNamed wazero.CompiledModule // same guest with module name "gm" in its name section
 	buf       []byte                // the observation guest's single memory page, reused by this worker (see reuseMem)
+	id        int64                 // distinguishes the probe directory names of concurrently running workers
 }
+
+var guestIDs atomic.Int64
 
 // reuseMem is a per-worker experimental.MemoryAllocator that hands every observation guest the same
 // 64 KiB buffer and clears only the part the guest uses (argument/result areas below 8 KiB). Allocating
@@ -349,7 +383,7 @@ func newGuestRT() *guestRT {
 	if err != nil {
 		fw.Fatalf("named guest module rejected: %v", err)
 	}
-	return &guestRT{rt: rt, code: code, codeNamed: codeNamed}
+	return &guestRT{rt: rt, code: code, codeNamed: codeNamed, id: guestIDs.Add(1)}
 }
 
 type observation struct {
@@ -359,10 +393,11 @@ type observation struct {
 	Env      []string
 	Starts   uint64
 	Preopens []string
+	Mk       []string // per preopen: outcome of creating (and removing again) a probe directory below it
 }
 
 func (o observation) String() string {
-	return fmt.Sprintf("err=%q name=%q args=%q env=%q starts=%d preopens=%q", o.Err, o.Name, o.Args, o.Env, o.Starts, o.Preopens)
+	return fmt.Sprintf("err=%q name=%q args=%q env=%q starts=%d preopens=%q mkdir=%q", o.Err, o.Name, o.Args, o.Env, o.Starts, o.Preopens, o.Mk)
 }
 
 func (g *guestRT) observe(ctx context.Context, mc wazero.ModuleConfig) (o observation) {
@@ -425,6 +460,30 @@ func (g *guestRT) observeBin(ctx context.Context, mc wazero.ModuleConfig, named 
 		b, _ := mem.Read(4096, l)
 		o.Preopens = append(o.Preopens, string(b))
 	}
+	// writability of every preopen: create and remove a probe directory (the name is unique per worker)
+	probe := fmt.Sprintf("zz%d", g.id)
+	for i := range o.Preopens {
+		fd := uint64(3 + i)
+		mem.Write(8192-64, []byte(probe))
+		o.Mk = append(o.Mk, func() (out string) {
+			defer func() {
+				if r := recover(); r != nil {
+					out = "panic"
+				}
+			}()
+			r, err := mod.ExportedFunction("path_create_directory").Call(ctx, fd, 8192-64, uint64(len(probe)))
+			if err != nil {
+				return "error"
+			}
+			if r[0] == 0 {
+				if r2, err := mod.ExportedFunction("path_remove_directory").Call(ctx, fd, 8192-64, uint64(len(probe))); err != nil || r2[0] != 0 {
+					return "created-but-not-removable"
+				}
+				return "rw"
+			}
+			return fmt.Sprintf("errno%d", r[0])
+		}())
+	}
 	return
 }
 
@@ -441,9 +500,16 @@ func predictMC(m mcModel) observation {
 	}
 	if m.fs != nil {
 		o.Preopens = append([]string{}, m.fs.paths...)
+		for _, k := range m.fs.kinds {
+			o.Mk = append(o.Mk, mkOutcome[k])
+		}
 	}
 	return o
 }
+
+// mkOutcome: what creating a directory below a mount of each kind gives (dirA/dirB: writable host directory; roA:
+// read-only mount, EROFS=69; fs: an fs.FS mount cannot create, ENOSYS=52; nil: a guest path whose mount was removed).
+var mkOutcome = map[string]string{"dirA": "rw", "dirB": "rw", "roA": "errno69", "roB": "errno69", "fs": "errno52", "nil": "?nil"}
 
 // runtime-config observation: behaviour of a runtime created from the node.
 var (
@@ -617,6 +683,17 @@ func (e *explorer) leaf(w *world, path []step) {
 
 // observeNode compares what a guest (or a runtime) built from node n observes with the functional reference.
 func (e *explorer) observeNode(w *world, path []step, i int, n *node) {
+	// A guest path whose mount was removed with WithFSMount(nil, path) is not documented input: what a guest
+	// sees of it is not defined (today the first WASI call on it fails), so such nodes are held to the snapshot
+	// invariant only.
+	if fm, ok := n.model.(*fsModel); ok && fm != nil {
+		for _, k := range fm.kinds {
+			if k == "nil" {
+				e.outcomes.Inc("observation-skipped:nil-mount")
+				return
+			}
+		}
+	}
 	{
 		var got, want string
 		switch e.kind {
@@ -773,6 +850,13 @@ func combOp(kind string, i int, tag string) op {
 	return op{}
 }
 
+func (e *explorer) unmountOp(g string) op {
+	name := "WithFSMount(nil," + g + ")"
+	return op{name, func(w *world, n *node) *node {
+		return &node{fc: n.fc.WithFSMount(nil, g), model: n.model.(*fsModel).unmount(g), born: name}
+	}}
+}
+
 // exploreCombs: for every chain length K' <= K and both orders (siblings after the chain is complete /
 // sibling derived from a node before the chain is extended from it), derive two siblings from EVERY
 // chain node; the snapshot invariant is evaluated on every node after every derivation and every node is
@@ -783,6 +867,9 @@ func (e *explorer) exploreCombs(hostA, hostB string, K int) {
 	}
 	for i := 0; i <= K; i++ {
 		e.ops = append(e.ops, combOp(e.kind, i, "K"), combOp(e.kind, i, "S"), combOp(e.kind, i, "T"))
+	}
+	if e.kind == "fs" {
+		e.ops = append(e.ops, e.unmountOp("/K0"))
 	}
 	type job struct {
 		k     int
@@ -824,6 +911,22 @@ func (e *explorer) exploreCombs(hostA, hostB string, K int) {
 				chain = append(chain, len(w.nodes)-1)
 				do(c, combOp(e.kind, i, "T"))
 			}
+		}
+		if e.kind == "fs" {
+			// unmount the FIRST chain element from every longer chain node: a nil entry that is not the last one
+			for i, c := range chain {
+				if i >= 1 {
+					do(c, e.unmountOp("/K0"))
+				}
+			}
+		}
+		// use every node once (instantiate a guest with it): using a configuration must not change any of them
+		use := "Instantiate"
+		if e.kind == "fs" {
+			use = "UseInModuleConfig+Instantiate"
+		}
+		for i := range w.nodes {
+			do(i, *e.opByName(use))
 		}
 		e.samples.Add(map[string]any{"kind": e.kind, "comb": j.order, "chain": j.k, "derivations": len(path)})
 		for i, n := range w.nodes {
@@ -929,6 +1032,9 @@ func replay(path string) {
 		}
 		for i := 0; i <= 17; i++ {
 			e.ops = append(e.ops, combOp(e.kind, i, "K"), combOp(e.kind, i, "S"), combOp(e.kind, i, "T"))
+		}
+		if e.kind == "fs" {
+			e.ops = append(e.ops, e.unmountOp("/K0"))
 		}
 		g := newGuestRT()
 		w := newWorld(e.kind, g, hostA, hostB, wazero.NewCompilationCache())
